@@ -107,7 +107,7 @@ func doReplay(path string, d *Driver) int {
 		}
 		if i < len(leanOut) {
 			fmt.Println("  lean:", leanOut[i])
-			if i < len(goOut) && goOut[i] != leanOut[i] && leanOut[i] != "bad-op" && !strings.HasPrefix(goOut[i], "(model-only") {
+			if i < len(goOut) && goOut[i] != leanOut[i] && leanOut[i] != "bad-op" && !strings.HasPrefix(goOut[i], "(") {
 				diff++
 			}
 		}
